@@ -3,6 +3,7 @@
 UNITS = {
     "dateroll": {"rlimit": 20},
     "dual_core": {"rlimit": 30},
+    "dual_ops": {"rlimit": 50},
 }
 
 COMMON_ASSUMPTIONS = [
